@@ -1,8 +1,1203 @@
-//! placeholder: this component is not built yet
+//! C09 — correspondence of `trion::text::parse::Parser` with the Lean model `Trion.Parse` and the property
+//! oracle: an argument tree rendered (here, independently of the model) with only the parentheses that
+//! precedence and left associativity require, with arbitrary spacing/comments, parses back to the
+//! identical tree; redundant parentheses change nothing; statement kind, names and argument order are
+//! preserved; an element carries the position of its first token.
+//!
+//! The model is always run on the REAL token stream (real `Tokenizer`, positions included), so this tie
+//! does not depend on the lexer model.
+use trion::text::parse::{Argument, ElementValue, ParseErrorKind, Parser};
+use trion::text::token::{Number, TokenErrorKind, TokenValue, Tokenizer};
+
 use crate::common::*;
 
-pub fn run(id: &str, cx: &mut Cx)
+// ---------------------------------------------------------------------------------------------------
+// trees
+
+#[derive(Clone, Debug, PartialEq)]
+enum T
 {
-	cx.report.notes.push(format!("component for {id} not implemented"));
-	cx.report.oracle_fail("-", "harness component not implemented");
+	Const(i64),
+	Ident(String),
+	Str(String),
+	Bin(usize, Box<T>, Box<T>),
+	Neg(Box<T>),
+	Not(Box<T>),
+	Addr(Box<T>),
+	Seq(Vec<T>),
+	Func(String, Vec<T>),
+}
+
+/// same order as `BinOp` in operator.rs
+const OP_NAMES: [&str; 10] = ["add", "sub", "mul", "div", "mod", "band", "bor", "bxor", "shl", "shr"];
+const OP_CODES: [&str; 10] = ["plus", "minus", "mul", "div", "mod", "band", "bor", "bxor", "shl", "shr"];
+const OP_TEXT: [&str; 10] = ["+", "-", "*", "/", "%", "&", "|", "^", "<<", ">>"];
+/// the documented precedence table (README): `|` < `^` < `&` < shifts < `+ -` < `* / %`
+const OP_GROUP: [u8; 10] = [4, 4, 5, 5, 5, 2, 0, 1, 3, 3];
+
+fn prec(t: &T) -> u8
+{
+	match t {T::Bin(op, ..) => OP_GROUP[*op], _ => 6}
+}
+
+fn sexpr(t: &T) -> String
+{
+	match t
+	{
+		T::Const(v) => format!("#{v}"),
+		T::Ident(s) => format!("i{}", hexs(s.as_bytes())),
+		T::Str(s) => format!("s{}", hexs(s.as_bytes())),
+		T::Bin(op, l, r) => format!("({} {} {})", OP_NAMES[*op], sexpr(l), sexpr(r)),
+		T::Neg(a) => format!("(neg {})", sexpr(a)),
+		T::Not(a) => format!("(not {})", sexpr(a)),
+		T::Addr(a) => format!("(addr {})", sexpr(a)),
+		T::Seq(xs) => format!("(seq{})", sexprs(xs)),
+		T::Func(n, xs) => format!("(fn {}{})", hexs(n.as_bytes()), sexprs(xs)),
+	}
+}
+
+fn sexprs(xs: &[T]) -> String
+{
+	xs.iter().map(|x| format!(" {}", sexpr(x))).collect()
+}
+
+/// hex without the "-" convention of `common::hex` (empty = empty)
+fn hexs(b: &[u8]) -> String
+{
+	b.iter().map(|b| format!("{b:02x}")).collect()
+}
+
+#[derive(Clone, Debug)]
+enum Stmt
+{
+	Label(String),
+	Directive(String, Vec<T>),
+	Instruction(String, Vec<T>),
+}
+
+fn stmt_canon(s: &Stmt) -> String
+{
+	match s
+	{
+		Stmt::Label(n) => format!("L {}", hexs(n.as_bytes())),
+		Stmt::Directive(n, xs) => format!("D {} (args{})", hexs(n.as_bytes()), sexprs(xs)),
+		Stmt::Instruction(n, xs) => format!("I {} (args{})", hexs(n.as_bytes()), sexprs(xs)),
+	}
+}
+
+// ---------------------------------------------------------------------------------------------------
+// s-expression reader (replay of `render` inputs)
+
+fn read_tree(s: &[u8], i: &mut usize) -> Option<T>
+{
+	while *i < s.len() && s[*i] == b' ' {*i += 1;}
+	let word = |i: &mut usize| -> String
+	{
+		let st = *i;
+		while *i < s.len() && !matches!(s[*i], b' ' | b'(' | b')') {*i += 1;}
+		String::from_utf8_lossy(&s[st..*i]).into_owned()
+	};
+	let close = |i: &mut usize| -> Option<()>
+	{
+		while *i < s.len() && s[*i] == b' ' {*i += 1;}
+		if *i < s.len() && s[*i] == b')' {*i += 1; Some(())} else {None}
+	};
+	match *s.get(*i)?
+	{
+		b'(' =>
+		{
+			*i += 1;
+			let w = word(i);
+			match w.as_str()
+			{
+				"neg" | "not" | "addr" =>
+				{
+					let a = Box::new(read_tree(s, i)?);
+					close(i)?;
+					Some(match w.as_str() {"neg" => T::Neg(a), "not" => T::Not(a), _ => T::Addr(a)})
+				},
+				"seq" => Some(T::Seq(read_trees(s, i)?)),
+				"fn" =>
+				{
+					while *i < s.len() && s[*i] == b' ' {*i += 1;}
+					let n = String::from_utf8(unhex(&word(i))?).ok()?;
+					Some(T::Func(n, read_trees(s, i)?))
+				},
+				_ =>
+				{
+					let op = OP_NAMES.iter().position(|n| *n == w)?;
+					let a = Box::new(read_tree(s, i)?);
+					let b = Box::new(read_tree(s, i)?);
+					close(i)?;
+					Some(T::Bin(op, a, b))
+				},
+			}
+		},
+		b'#' => {*i += 1; Some(T::Const(word(i).parse().ok()?))},
+		b'i' => {*i += 1; Some(T::Ident(String::from_utf8(unhex(&word(i))?).ok()?))},
+		b's' => {*i += 1; Some(T::Str(String::from_utf8(unhex(&word(i))?).ok()?))},
+		_ => None,
+	}
+}
+
+/// trees up to and including the closing parenthesis
+fn read_trees(s: &[u8], i: &mut usize) -> Option<Vec<T>>
+{
+	let mut out = Vec::new();
+	loop
+	{
+		while *i < s.len() && s[*i] == b' ' {*i += 1;}
+		if *i >= s.len() {return None;}
+		if s[*i] == b')' {*i += 1; return Some(out);}
+		out.push(read_tree(s, i)?);
+	}
+}
+
+// ---------------------------------------------------------------------------------------------------
+// rendering to tokens (the property's "only the parentheses required"), independent of the Lean spec
+
+#[derive(Clone, Debug, PartialEq)]
+enum Tk
+{
+	P(&'static str, &'static str), // (code, text)
+	Num(i64),
+	Ident(String),
+	Str(String),
+}
+
+const LP: Tk = Tk::P("lp", "(");
+const RP: Tk = Tk::P("rp", ")");
+
+fn tk_code(t: &Tk) -> String
+{
+	match t
+	{
+		Tk::P(c, _) => (*c).to_owned(),
+		Tk::Num(v) => format!("n{v}"),
+		Tk::Ident(s) => format!("i{}", hexs(s.as_bytes())),
+		Tk::Str(s) => format!("s{}", hexs(s.as_bytes())),
+	}
+}
+
+/// `extra`: probability (in 1/64) of wrapping any sub-expression in redundant parentheses
+fn render(t: &T, min: u8, extra: u64, rng: &mut Rng, out: &mut Vec<Tk>)
+{
+	let mut layers = 0;
+	while extra > 0 && layers < 3 && rng.below(64) < extra {layers += 1;}
+	for _ in 0..layers {out.push(LP);}
+	let min = if layers > 0 {0} else {min};
+	let need = prec(t) < min;
+	if need {out.push(LP);}
+	match t
+	{
+		T::Const(v) => out.push(Tk::Num(*v)),
+		T::Ident(s) => out.push(Tk::Ident(s.clone())),
+		T::Str(s) => out.push(Tk::Str(s.clone())),
+		T::Bin(op, l, r) =>
+		{
+			let g = OP_GROUP[*op];
+			// left associative: the left operand may be of the same group, the right one must bind tighter
+			render(l, g, extra, rng, out);
+			out.push(Tk::P(OP_CODES[*op], OP_TEXT[*op]));
+			render(r, g + 1, extra, rng, out);
+		},
+		T::Neg(a) => {out.push(Tk::P("minus", "-")); render(a, 6, extra, rng, out);},
+		T::Not(a) => {out.push(Tk::P("not", "!")); render(a, 6, extra, rng, out);},
+		T::Addr(a) => {out.push(Tk::P("lb", "[")); render(a, 0, extra, rng, out); out.push(Tk::P("rb", "]"));},
+		T::Seq(xs) => {out.push(Tk::P("lc", "{")); render_list(xs, extra, rng, out); out.push(Tk::P("rc", "}"));},
+		T::Func(n, xs) => {out.push(Tk::Ident(n.clone())); out.push(LP); render_list(xs, extra, rng, out); out.push(RP);},
+	}
+	if need {out.push(RP);}
+	for _ in 0..layers {out.push(RP);}
+}
+
+fn render_list(xs: &[T], extra: u64, rng: &mut Rng, out: &mut Vec<Tk>)
+{
+	for (i, x) in xs.iter().enumerate()
+	{
+		if i > 0 {out.push(Tk::P("sep", ","));}
+		render(x, 0, extra, rng, out);
+	}
+}
+
+fn render_stmt(s: &Stmt, extra: u64, rng: &mut Rng, out: &mut Vec<Tk>)
+{
+	match s
+	{
+		Stmt::Label(n) => {out.push(Tk::Ident(n.clone())); out.push(Tk::P("lm", ":"));},
+		Stmt::Directive(n, xs) =>
+		{
+			out.push(Tk::P("dm", "."));
+			out.push(Tk::Ident(n.clone()));
+			render_list(xs, extra, rng, out);
+			out.push(Tk::P("term", ";"));
+		},
+		Stmt::Instruction(n, xs) =>
+		{
+			out.push(Tk::Ident(n.clone()));
+			render_list(xs, extra, rng, out);
+			out.push(Tk::P("term", ";"));
+		},
+	}
+}
+
+// ---------------------------------------------------------------------------------------------------
+// tokens to text
+
+fn num_text(v: i64, rng: &mut Rng) -> String
+{
+	if v < 0 {return format!("{v}");} // only reachable from token soup; lexes as '-' number
+	match rng.below(8)
+	{
+		0 => format!("0x{v:x}"),
+		1 => format!("0x{v:X}"),
+		2 => format!("0o{v:o}"),
+		3 if v < 1 << 20 => format!("0b{v:b}"),
+		4 => format!("00{v}"),
+		5 if (32..127).contains(&v) =>
+		{
+			match v as u8
+			{
+				b'\'' => "'\\''".to_owned(),
+				b'\\' => "'\\\\'".to_owned(),
+				c => format!("'{}'", c as char),
+			}
+		},
+		5 if v == 9 => "'\\t'".to_owned(),
+		5 if v == 10 => "'\\n'".to_owned(),
+		5 if v == 0xE9 => "'é'".to_owned(),
+		_ => format!("{v}"),
+	}
+}
+
+fn str_text(s: &str, rng: &mut Rng) -> String
+{
+	let mut o = String::from("\"");
+	for c in s.chars()
+	{
+		match c
+		{
+			'"' => o.push_str("\\\""),
+			'\\' => o.push_str("\\\\"),
+			'\n' => o.push_str("\\n"),
+			'\r' => o.push_str("\\r"),
+			'\0' => o.push_str("\\0"),
+			'\t' => o.push_str(if rng.chance(1, 2) {"\\t"} else {"\t"}),
+			'\'' => o.push_str(if rng.chance(1, 2) {"\\'"} else {"'"}),
+			c if (c as u32) < 0x20 || c as u32 == 0x7F => o.push_str(&format!("\\u{{{:x}}}", c as u32)),
+			c => if rng.chance(1, 8) {o.push_str(&format!("\\u{{{:X}}}", c as u32))} else {o.push(c)},
+		}
+	}
+	o.push('"');
+	o
+}
+
+fn tk_text(t: &Tk, rng: &mut Rng) -> String
+{
+	match t
+	{
+		Tk::P(_, s) => (*s).to_owned(),
+		Tk::Num(v) => num_text(*v, rng),
+		Tk::Ident(s) => s.clone(),
+		Tk::Str(s) => str_text(s, rng),
+	}
+}
+
+fn ident_char(c: u8) -> bool
+{
+	matches!(c, b'$' | b'.' | b'0'..=b'9' | b'@' | b'A'..=b'Z' | b'_' | b'a'..=b'z')
+}
+
+const SEPS: [&str; 14] = [" ", "  ", "\t", "\n", "\r\n", " \n  ", "// c ; , ( \"\n", "//\n", "/* c */", "/**/", "/* a /* b */ c */",
+	"/*é漢*/", "/* \n\n */", "\n//é\n\t"];
+
+/// spacing: 0 = one blank where needed and nothing elsewhere, 1 = single blanks everywhere, 2 = random
+fn to_text(toks: &[Tk], spacing: u8, rng: &mut Rng) -> Vec<u8>
+{
+	let mut o: Vec<u8> = Vec::new();
+	let pending = |o: &mut Vec<u8>, next: Option<&str>, rng: &mut Rng|
+	{
+		let mut sep = String::new();
+		match spacing
+		{
+			0 => (),
+			1 => if !o.is_empty() && next.is_some() {sep.push(' ');},
+			_ =>
+			{
+				let n = match rng.below(8) {0..=2 => 0, 3..=6 => 1, _ => 2};
+				for _ in 0..n {sep.push_str(*rng.pick(&SEPS[..]));}
+			},
+		}
+		let last = o.last().copied();
+		let first = sep.bytes().next().or_else(|| next.and_then(|n| n.bytes().next()));
+		if let (Some(a), Some(b)) = (last, first)
+		{
+			// identifier/number neighbours need a separator; '/' must not be followed by '/' or '*'
+			if (sep.is_empty() && ident_char(a) && ident_char(b) && !(a == b'.' && o.len() >= 1 && is_dir_mark(o)))
+				|| (a == b'/' && (b == b'/' || b == b'*'))
+			{
+				sep.insert(0, ' ');
+			}
+		}
+		o.extend_from_slice(sep.as_bytes());
+	};
+	for t in toks
+	{
+		let text = tk_text(t, rng);
+		pending(&mut o, Some(&text), rng);
+		o.extend_from_slice(text.as_bytes());
+	}
+	pending(&mut o, None, rng);
+	o
+}
+
+/// the last byte written is a '.' that was emitted as a directive mark token (not part of an identifier):
+/// true iff the byte before it is not an identifier character
+fn is_dir_mark(o: &[u8]) -> bool
+{
+	o.len() < 2 || !ident_char(o[o.len() - 2])
+}
+
+// ---------------------------------------------------------------------------------------------------
+// the real code
+
+fn kind_code(k: &TokenErrorKind) -> String
+{
+	match k
+	{
+		TokenErrorKind::BadUnicode => "bu".to_owned(),
+		TokenErrorKind::Invalid => "inv".to_owned(),
+		TokenErrorKind::BlockComment => "bc".to_owned(),
+		TokenErrorKind::BadNumber => "bn".to_owned(),
+		TokenErrorKind::BadCharacter => "bh".to_owned(),
+		TokenErrorKind::BadString => "bs".to_owned(),
+		TokenErrorKind::Unexpected(c) => format!("ux{}", *c as u32),
+	}
+}
+
+fn value_code(v: &TokenValue) -> String
+{
+	match v
+	{
+		TokenValue::Separator => "sep".to_owned(),
+		TokenValue::Terminator => "term".to_owned(),
+		TokenValue::LabelMark => "lm".to_owned(),
+		TokenValue::DirectiveMark => "dm".to_owned(),
+		TokenValue::Plus => "plus".to_owned(),
+		TokenValue::Minus => "minus".to_owned(),
+		TokenValue::Multiply => "mul".to_owned(),
+		TokenValue::Divide => "div".to_owned(),
+		TokenValue::Modulo => "mod".to_owned(),
+		TokenValue::Not => "not".to_owned(),
+		TokenValue::BitAnd => "band".to_owned(),
+		TokenValue::BitOr => "bor".to_owned(),
+		TokenValue::BitXor => "bxor".to_owned(),
+		TokenValue::LeftShift => "shl".to_owned(),
+		TokenValue::RightShift => "shr".to_owned(),
+		TokenValue::Number(Number::Integer(v)) => format!("n{v}"),
+		TokenValue::Identifier(s) => format!("i{}", hexs(s.as_bytes())),
+		TokenValue::String(s) => format!("s{}", hexs(s.as_bytes())),
+		TokenValue::BeginGroup => "lp".to_owned(),
+		TokenValue::EndGroup => "rp".to_owned(),
+		TokenValue::BeginAddr => "lb".to_owned(),
+		TokenValue::EndAddr => "rb".to_owned(),
+		TokenValue::BeginSeq => "lc".to_owned(),
+		TokenValue::EndSeq => "rc".to_owned(),
+	}
+}
+
+/// what the real tokenizer yields when iterated to exhaustion: the model's `LexOut`
+struct RealLex
+{
+	toks: Vec<(u32, u32, String)>,
+	err: Option<String>,
+	end: (u32, u32),
+}
+
+fn real_lex(text: &[u8]) -> Result<RealLex, String>
+{
+	guarded(||
+	{
+		let mut tz = Tokenizer::new(text);
+		let mut toks = Vec::new();
+		let mut err = None;
+		while let Some(item) = tz.next()
+		{
+			match item
+			{
+				Ok(t) => toks.push((t.line, t.col, value_code(&t.value))),
+				Err(e) => {err = Some(format!("{}:{}:{}", kind_code(&e.value), e.line, e.col)); break;},
+			}
+		}
+		// drain (nothing may follow an error; the parser model relies on the stream being finished)
+		while tz.next().is_some() {}
+		RealLex{toks, err, end: (tz.get_line(), tz.get_column())}
+	})
+}
+
+fn model_request(lx: &RealLex) -> String
+{
+	let mut s = format!("parse toks {} {} {}", lx.end.0, lx.end.1, lx.err.as_deref().unwrap_or("-"));
+	for (l, c, code) in &lx.toks
+	{
+		s.push_str(&format!(" {l}:{c}:{code}"));
+	}
+	s
+}
+
+fn canon_arg(a: &Argument, o: &mut String)
+{
+	let bin = |name: &str, l: &Argument, r: &Argument, o: &mut String|
+	{
+		o.push('(');
+		o.push_str(name);
+		o.push(' ');
+		canon_arg(l, o);
+		o.push(' ');
+		canon_arg(r, o);
+		o.push(')');
+	};
+	let un = |name: &str, x: &Argument, o: &mut String|
+	{
+		o.push('(');
+		o.push_str(name);
+		o.push(' ');
+		canon_arg(x, o);
+		o.push(')');
+	};
+	match a
+	{
+		Argument::Constant(Number::Integer(v)) => o.push_str(&format!("#{v}")),
+		Argument::Identifier(s) => {o.push('i'); o.push_str(&hexs(s.as_bytes()));},
+		Argument::String(s) => {o.push('s'); o.push_str(&hexs(s.as_bytes()));},
+		Argument::Add{lhs, rhs} => bin("add", lhs, rhs, o),
+		Argument::Subtract{lhs, rhs} => bin("sub", lhs, rhs, o),
+		Argument::Multiply{lhs, rhs} => bin("mul", lhs, rhs, o),
+		Argument::Divide{lhs, rhs} => bin("div", lhs, rhs, o),
+		Argument::Modulo{lhs, rhs} => bin("mod", lhs, rhs, o),
+		Argument::BitAnd{lhs, rhs} => bin("band", lhs, rhs, o),
+		Argument::BitOr{lhs, rhs} => bin("bor", lhs, rhs, o),
+		Argument::BitXor{lhs, rhs} => bin("bxor", lhs, rhs, o),
+		Argument::LeftShift{lhs, rhs} => bin("shl", lhs, rhs, o),
+		Argument::RightShift{lhs, rhs} => bin("shr", lhs, rhs, o),
+		Argument::Negate(x) => un("neg", x, o),
+		Argument::Not(x) => un("not", x, o),
+		Argument::Address(x) => un("addr", x, o),
+		Argument::Sequence(xs) =>
+		{
+			o.push_str("(seq");
+			for x in xs {o.push(' '); canon_arg(x, o);}
+			o.push(')');
+		},
+		Argument::Function{name, args} =>
+		{
+			o.push_str("(fn ");
+			o.push_str(&hexs(name.as_bytes()));
+			for x in args {o.push(' '); canon_arg(x, o);}
+			o.push(')');
+		},
+	}
+}
+
+fn canon_args(xs: &[Argument]) -> String
+{
+	let mut o = String::from("(args");
+	for x in xs {o.push(' '); canon_arg(x, &mut o);}
+	o.push(')');
+	o
+}
+
+struct RealParse
+{
+	/// canonical text with positions (compared with the model)
+	with_pos: String,
+	/// elements without positions (compared with the generated statements)
+	no_pos: String,
+	/// positions of the ok elements
+	pos: Vec<(u32, u32)>,
+	panic: Option<String>,
+}
+
+fn real_parse(text: &[u8]) -> RealParse
+{
+	let r = guarded(||
+	{
+		let mut with_pos: Vec<String> = Vec::new();
+		let mut no_pos: Vec<String> = Vec::new();
+		let mut pos = Vec::new();
+		let mut p = Parser::new(text);
+		loop
+		{
+			match p.next()
+			{
+				None => break,
+				Some(Ok(e)) =>
+				{
+					let body = match &e.value
+					{
+						ElementValue::Label(n) => format!("L@{}", hexs(n.as_bytes())),
+						ElementValue::Directive{name, args} => format!("D@{} {}", hexs(name.as_bytes()), canon_args(args)),
+						ElementValue::Instruction{name, args} => format!("I@{} {}", hexs(name.as_bytes()), canon_args(args)),
+					};
+					with_pos.push(body.replacen('@', &format!(" {} {} ", e.line, e.col), 1));
+					no_pos.push(body.replacen('@', " ", 1));
+					pos.push((e.line, e.col));
+				},
+				Some(Err(e)) =>
+				{
+					let s = match &e.value
+					{
+						ParseErrorKind::Token(t) => format!("E {} {} tok {} {} {}", e.line, e.col, kind_code(&t.value), t.line, t.col),
+						ParseErrorKind::Expected{have, expect} => format!("E {} {} exp {} {}", e.line, e.col, expect, have),
+					};
+					with_pos.push(s.clone());
+					no_pos.push(s);
+					// the iterator is finished after its first error
+					for _ in 0..3
+					{
+						if p.next().is_some() {with_pos.push("AFTER".to_owned()); break;}
+					}
+					break;
+				},
+			}
+		}
+		if p.next().is_some() {with_pos.push("AFTER-END".to_owned());}
+		let j = |v: &Vec<String>| if v.is_empty() {"-".to_owned()} else {v.join(" | ")};
+		(j(&with_pos), j(&no_pos), pos)
+	});
+	match r
+	{
+		Ok((with_pos, no_pos, pos)) => RealParse{with_pos, no_pos, pos, panic: None},
+		Err(msg) => RealParse{with_pos: "PANIC".to_owned(), no_pos: "PANIC".to_owned(), pos: Vec::new(), panic: Some(msg)},
+	}
+}
+
+// ---------------------------------------------------------------------------------------------------
+// cases
+
+/// one input of the `model.parse.all` correspondence
+struct Case
+{
+	text: Vec<u8>,
+	/// round-trip cases: expected statements (canonical, without positions) and the number of tokens of each
+	expect: Option<(String, Vec<usize>)>,
+	bucket: &'static str,
+}
+
+impl Case
+{
+	fn input(&self) -> String
+	{
+		match &self.expect
+		{
+			Some((e, counts)) => format!("rt {} {} {}", hex(&self.text), counts.iter().map(|c| c.to_string()).collect::<Vec<_>>().join(","), e),
+			None => format!("ill {}", hex(&self.text)),
+		}
+	}
+}
+
+fn stmts_case(stmts: &[Stmt], extra: u64, spacing: u8, bucket: &'static str, rng: &mut Rng) -> Case
+{
+	let mut toks = Vec::new();
+	let mut counts = Vec::new();
+	for s in stmts
+	{
+		let before = toks.len();
+		render_stmt(s, extra, rng, &mut toks);
+		counts.push(toks.len() - before);
+	}
+	let text = to_text(&toks, spacing, rng);
+	let expect = if stmts.is_empty() {"-".to_owned()} else {stmts.iter().map(stmt_canon).collect::<Vec<_>>().join(" | ")};
+	Case{text, expect: Some((expect, counts)), bucket}
+}
+
+fn run_cases(cx: &mut Cx, cases: &[Case])
+{
+	for chunk in cases.chunks(8192)
+	{
+		let lexed: Vec<Result<RealLex, String>> = chunk.iter().map(|c| real_lex(&c.text)).collect();
+		let lines: Vec<String> = lexed.iter().map(|l| match l {Ok(l) => model_request(l), Err(_) => "ping".to_owned()}).collect();
+		let replies = cx.model.ask_many(&lines);
+		for ((c, lx), reply) in chunk.iter().zip(lexed.iter()).zip(replies.iter())
+		{
+			check_case(cx, c, lx, reply);
+		}
+	}
+}
+
+fn check_case(cx: &mut Cx, c: &Case, lx: &Result<RealLex, String>, reply: &str)
+{
+	let input = c.input();
+	cx.report.hit(c.bucket);
+	let lx = match lx
+	{
+		Ok(l) => l,
+		Err(msg) =>
+		{
+			// a tokenizer panic is C10's finding; the parser tie cannot be evaluated on this input
+			cx.report.case(None);
+			cx.report.oracle_fail(input, format!("the real Tokenizer panicked: {msg}"));
+			return;
+		},
+	};
+	let real = real_parse(&c.text);
+	let trivial = real.with_pos == "-" || (real.pos.is_empty() && real.panic.is_none() && lx.toks.len() <= 1);
+	cx.report.case(if trivial {None} else {Some(&real.with_pos)});
+	cx.report.compare("model.parse.all", &input, reply, &real.with_pos);
+	if let Some(msg) = &real.panic
+	{
+		cx.report.oracle_fail(input.clone(), format!("the real Parser panicked: {msg}"));
+		cx.report.hit("outcome: panic");
+		return;
+	}
+	let last = real.no_pos.rsplit(" | ").next().unwrap_or("").to_owned();
+	if last.starts_with("E ")
+	{
+		if let Some(p) = last.find(" exp ") {cx.report.hit(&format!("error:{}", &last[p + 4..]));}
+		else {cx.report.hit("error: token error");}
+	}
+	else {cx.report.hit("outcome: ok");}
+	if let Some((expect, counts)) = &c.expect
+	{
+		// (a)/(b): the tree written down is the tree read back; kinds, names and argument order are preserved
+		if &real.no_pos != expect
+		{
+			cx.report.oracle_fail(input.clone(), format!("text {:?} was rendered from [{}] but parses as [{}]", String::from_utf8_lossy(&c.text), expect, real.no_pos));
+		}
+		// an element carries the position of its first token (C12 stmt_pos, evaluated on the implementation)
+		let mut idx = 0;
+		for (i, n) in counts.iter().enumerate()
+		{
+			if let (Some(p), Some(t)) = (real.pos.get(i), lx.toks.get(idx))
+			{
+				if *p != (t.0, t.1)
+				{
+					cx.report.oracle_fail(input.clone(), format!("statement {i} is reported at {}:{} but its first token is at {}:{}", p.0, p.1, t.0, t.1));
+				}
+			}
+			idx += n;
+		}
+	}
+}
+
+/// tie of the Lean rendering specification with the renderer of this harness
+fn check_render(cx: &mut Cx, trees: &[T])
+{
+	for chunk in trees.chunks(8192)
+	{
+		let lines: Vec<String> = chunk.iter().map(|t| format!("parse render {}", sexpr(t))).collect();
+		let replies = cx.model.ask_many(&lines);
+		for (t, reply) in chunk.iter().zip(replies.iter())
+		{
+			let mut toks = Vec::new();
+			let mut rng = Rng::new(0);
+			render(t, 0, 0, &mut rng, &mut toks);
+			let mine = if toks.is_empty() {"-".to_owned()} else {toks.iter().map(tk_code).collect::<Vec<_>>().join(" ")};
+			cx.report.cases(1);
+			cx.report.hit("render spec = harness renderer");
+			cx.report.compare("model.parse.render", &format!("render {}", sexpr(t)), reply, &mine);
+		}
+	}
+}
+
+fn check_render_stmts(cx: &mut Cx, stmts: &[Stmt])
+{
+	let lines: Vec<String> = stmts.iter().map(|s| match s
+	{
+		Stmt::Label(n) => format!("parse rstmt L {}", hexs(n.as_bytes())),
+		Stmt::Directive(n, xs) => format!("parse rstmt D {}{}", hexs(n.as_bytes()), sexprs(xs)),
+		Stmt::Instruction(n, xs) => format!("parse rstmt I {}{}", hexs(n.as_bytes()), sexprs(xs)),
+	}).collect();
+	let replies = cx.model.ask_many(&lines);
+	for ((s, line), reply) in stmts.iter().zip(lines.iter()).zip(replies.iter())
+	{
+		let mut toks = Vec::new();
+		let mut rng = Rng::new(0);
+		render_stmt(s, 0, &mut rng, &mut toks);
+		let mine = toks.iter().map(tk_code).collect::<Vec<_>>().join(" ");
+		cx.report.cases(1);
+		cx.report.hit("render spec = harness renderer (statements)");
+		cx.report.compare("model.parse.render", &line["parse ".len()..], reply, &mine);
+	}
+}
+
+// ---------------------------------------------------------------------------------------------------
+// generators
+
+fn gen_ident(rng: &mut Rng) -> String
+{
+	const FIRST: &[u8] = b"ABCDEFGHIJKLMNOPQRSTUVWXYZabcdefghijklmnopqrstuvwxyz_";
+	const REST: &[u8] = b"ABCXYZabcxyz_0123456789$.@";
+	if rng.chance(1, 4)
+	{
+		return (*rng.pick(&["R0", "r7", "SP", "PC", "LR", "x", "MOVS", "du8", "a.b", "_", "l$1", "f@2", "R10."])).to_owned();
+	}
+	let mut s = String::new();
+	s.push(*rng.pick(FIRST) as char);
+	for _ in 0..rng.below(6) {s.push(*rng.pick(REST) as char);}
+	s
+}
+
+fn gen_const(rng: &mut Rng) -> i64
+{
+	match rng.below(8)
+	{
+		0 => 0,
+		1 => *rng.pick(&[1, 2, 9, 10, 39, 92, 255, 256, 0xE9, 65535, 1 << 31, 1 << 32, i64::MAX, i64::MAX - 1]),
+		2 => rng.below(128) as i64,
+		3 => (rng.next() >> 1) as i64,
+		_ => rng.below(1 << 16) as i64,
+	}
+}
+
+fn gen_string(rng: &mut Rng) -> String
+{
+	const CH: &[char] = &['a', 'b', 'Z', '0', ' ', ';', ',', '(', ')', '/', '*', '"', '\\', '\'', '\n', '\t', '\r', '\0', '\u{1}', '\u{7f}', 'é', '漢', '😀', '{', '}', 'u'];
+	let n = match rng.below(4) {0 => 0, 1 => 1, _ => rng.below(8)};
+	(0..n).map(|_| *rng.pick(CH)).collect()
+}
+
+fn gen_leaf(rng: &mut Rng) -> T
+{
+	match rng.below(5)
+	{
+		0 | 1 => T::Const(gen_const(rng)),
+		2 | 3 => T::Ident(gen_ident(rng)),
+		_ => T::Str(gen_string(rng)),
+	}
+}
+
+fn gen_list(rng: &mut Rng, depth: u32) -> Vec<T>
+{
+	let n = match rng.below(6) {0 => 0, 1 | 2 => 1, 3 | 4 => 2, _ => 3};
+	(0..n).map(|_| gen_tree(rng, depth)).collect()
+}
+
+fn gen_tree(rng: &mut Rng, depth: u32) -> T
+{
+	if depth == 0 || rng.chance(1, 6) {return gen_leaf(rng);}
+	match rng.below(16)
+	{
+		0..=9 =>
+		{
+			let op = rng.below(10) as usize;
+			let l = Box::new(gen_tree(rng, depth - 1));
+			let r = Box::new(gen_tree(rng, depth - 1));
+			T::Bin(op, l, r)
+		},
+		10 | 11 => T::Neg(Box::new(gen_tree(rng, depth - 1))),
+		12 => T::Not(Box::new(gen_tree(rng, depth - 1))),
+		13 => T::Addr(Box::new(gen_tree(rng, depth - 1))),
+		14 => T::Seq(gen_list(rng, depth - 1)),
+		_ => T::Func(gen_ident(rng), gen_list(rng, depth - 1)),
+	}
+}
+
+fn gen_stmt(rng: &mut Rng, depth: u32) -> Stmt
+{
+	match rng.below(6)
+	{
+		0 => Stmt::Label(gen_ident(rng)),
+		1 | 2 => Stmt::Directive(gen_ident(rng), gen_list(rng, depth)),
+		_ => Stmt::Instruction(gen_ident(rng), gen_list(rng, depth)),
+	}
+}
+
+fn count_kinds(cx: &mut Cx, t: &T)
+{
+	match t
+	{
+		T::Const(..) => cx.report.hit("node: const"),
+		T::Ident(..) => cx.report.hit("node: ident"),
+		T::Str(..) => cx.report.hit("node: str"),
+		T::Bin(op, l, r) => {cx.report.hit(&format!("node: {}", OP_NAMES[*op])); count_kinds(cx, l); count_kinds(cx, r);},
+		T::Neg(a) => {cx.report.hit("node: neg"); count_kinds(cx, a);},
+		T::Not(a) => {cx.report.hit("node: not"); count_kinds(cx, a);},
+		T::Addr(a) => {cx.report.hit("node: addr"); count_kinds(cx, a);},
+		T::Seq(xs) => {cx.report.hit("node: seq"); for x in xs {count_kinds(cx, x);}},
+		T::Func(_, xs) => {cx.report.hit("node: func"); for x in xs {count_kinds(cx, x);}},
+	}
+}
+
+fn leaf(i: usize) -> T
+{
+	match i % 3
+	{
+		0 => T::Ident(format!("v{i}")),
+		1 => T::Const(i as i64),
+		_ => T::Str(format!("s{i}")),
+	}
+}
+
+/// the 18 node kinds with leaf children (index `k`), leaves numbered from `base`
+fn kind_node(k: usize, base: usize) -> T
+{
+	match k
+	{
+		0..=9 => T::Bin(k, Box::new(leaf(base)), Box::new(leaf(base + 1))),
+		10 => T::Neg(Box::new(leaf(base))),
+		11 => T::Not(Box::new(leaf(base))),
+		12 => T::Addr(Box::new(leaf(base))),
+		13 => T::Seq(vec![leaf(base), leaf(base + 1)]),
+		14 => T::Func(format!("f{base}"), vec![leaf(base), leaf(base + 1)]),
+		15 => T::Const(base as i64),
+		16 => T::Ident(format!("w{base}")),
+		_ => T::Str(format!("t{base}")),
+	}
+}
+
+/// every parent kind over every ordered pair of child kinds (all 18 kinds), depth 2
+fn depth2_all() -> Vec<T>
+{
+	let mut out = Vec::new();
+	for a in 0..18
+	{
+		for p in 10..13
+		{
+			let c = Box::new(kind_node(a, 0));
+			out.push(match p {10 => T::Neg(c), 11 => T::Not(c), _ => T::Addr(c)});
+		}
+		for b in 0..18
+		{
+			for op in 0..10 {out.push(T::Bin(op, Box::new(kind_node(a, 0)), Box::new(kind_node(b, 4))));}
+			out.push(T::Seq(vec![kind_node(a, 0), kind_node(b, 4)]));
+			out.push(T::Func("g".to_owned(), vec![kind_node(a, 0), kind_node(b, 4)]));
+		}
+	}
+	out
+}
+
+/// all shapes of binary trees with `n` inner nodes; leaves are `None`
+#[derive(Clone)]
+enum Shape {Leaf, Node(Box<Shape>, Box<Shape>)}
+
+fn shapes(n: usize) -> Vec<Shape>
+{
+	if n == 0 {return vec![Shape::Leaf];}
+	let mut out = Vec::new();
+	for l in 0..n
+	{
+		for a in shapes(l)
+		{
+			for b in shapes(n - 1 - l) {out.push(Shape::Node(Box::new(a.clone()), Box::new(b)));}
+		}
+	}
+	out
+}
+
+/// fill a shape with the operators `ops` (pre-order) and numbered leaves; `unary`: wrap the node with
+/// pre-order index `.0` (inner nodes and leaves counted together) in neg (0) / not (1) / addr (2)
+fn fill(s: &Shape, ops: &[usize], next_op: &mut usize, next_leaf: &mut usize, next_node: &mut usize, unary: Option<(usize, usize)>) -> T
+{
+	let me = *next_node;
+	*next_node += 1;
+	let t = match s
+	{
+		Shape::Leaf => {let l = leaf(*next_leaf); *next_leaf += 1; l},
+		Shape::Node(a, b) =>
+		{
+			let op = ops[*next_op];
+			*next_op += 1;
+			let l = fill(a, ops, next_op, next_leaf, next_node, unary);
+			let r = fill(b, ops, next_op, next_leaf, next_node, unary);
+			T::Bin(op, Box::new(l), Box::new(r))
+		},
+	};
+	match unary
+	{
+		Some((at, 0)) if at == me => T::Neg(Box::new(t)),
+		Some((at, 1)) if at == me => T::Not(Box::new(t)),
+		Some((at, _)) if at == me => T::Addr(Box::new(t)),
+		_ => t,
+	}
+}
+
+/// all binary-operator trees with exactly `n` operators (every shape, every operator assignment);
+/// `stride`/`offset` select a slice
+fn op_trees(n: usize, stride: usize, offset: usize, with_unary: bool) -> Vec<T>
+{
+	let mut out = Vec::new();
+	let total = 10usize.pow(n as u32);
+	let mut idx = 0usize;
+	for s in shapes(n)
+	{
+		for code in 0..total
+		{
+			let ops: Vec<usize> = (0..n).map(|i| (code / 10usize.pow(i as u32)) % 10).collect();
+			if with_unary
+			{
+				for at in 0..(2 * n + 1)
+				{
+					for u in 0..3
+					{
+						idx += 1;
+						if idx % stride != offset % stride {continue;}
+						out.push(fill(&s, &ops, &mut 0, &mut 0, &mut 0, Some((at, u))));
+					}
+				}
+			}
+			else
+			{
+				idx += 1;
+				if idx % stride != offset % stride {continue;}
+				out.push(fill(&s, &ops, &mut 0, &mut 0, &mut 0, None));
+			}
+		}
+	}
+	out
+}
+
+// --- ill-formed inputs
+
+fn soup_token(rng: &mut Rng) -> Tk
+{
+	const PUNCT: [(&str, &str); 21] = [("sep", ","), ("term", ";"), ("lm", ":"), ("dm", "."), ("plus", "+"), ("minus", "-"), ("mul", "*"),
+		("div", "/"), ("mod", "%"), ("not", "!"), ("band", "&"), ("bor", "|"), ("bxor", "^"), ("shl", "<<"), ("shr", ">>"),
+		("lp", "("), ("rp", ")"), ("lb", "["), ("rb", "]"), ("lc", "{"), ("rc", "}")];
+	match rng.below(30)
+	{
+		0..=20 => {let (c, t) = PUNCT[rng.below(21) as usize]; Tk::P(c, t)},
+		21..=23 => Tk::Num(rng.below(100) as i64),
+		24..=27 => Tk::Ident(gen_ident(rng)),
+		_ => Tk::Str(gen_string(rng)),
+	}
+}
+
+fn gen_ill(rng: &mut Rng) -> (Vec<u8>, &'static str)
+{
+	match rng.below(10)
+	{
+		0 | 1 =>
+		{
+			// token soup
+			let n = rng.below(13);
+			let toks: Vec<Tk> = (0..n).map(|_| soup_token(rng)).collect();
+			(to_text(&toks, if rng.chance(1, 2) {1} else {2}, rng), "ill: token soup")
+		},
+		2 | 3 =>
+		{
+			// statement-shaped soup: more likely to get deep into the grammar
+			let mut toks = Vec::new();
+			if rng.chance(1, 3) {toks.push(Tk::P("dm", "."));}
+			toks.push(Tk::Ident(gen_ident(rng)));
+			for _ in 0..rng.below(10)
+			{
+				toks.push(match rng.below(6)
+				{
+					0 | 1 => Tk::Num(rng.below(10) as i64),
+					2 => Tk::Ident(gen_ident(rng)),
+					_ => soup_token(rng),
+				});
+			}
+			if rng.chance(2, 3) {toks.push(Tk::P("term", ";"));}
+			(to_text(&toks, if rng.chance(1, 2) {1} else {2}, rng), "ill: statement-shaped soup")
+		},
+		4 | 5 =>
+		{
+			// valid program with one token deleted / replaced / inserted / swapped
+			let stmts: Vec<Stmt> = (0..1 + rng.below(3)).map(|_| gen_stmt(rng, 3)).collect();
+			let mut toks = Vec::new();
+			for s in &stmts {render_stmt(s, 4, rng, &mut toks);}
+			if !toks.is_empty()
+			{
+				let at = rng.below(toks.len() as u64) as usize;
+				match rng.below(4)
+				{
+					0 => {toks.remove(at);},
+					1 => toks[at] = soup_token(rng),
+					2 => toks.insert(at, soup_token(rng)),
+					_ => {let b = rng.below(toks.len() as u64) as usize; toks.swap(at, b);},
+				}
+			}
+			(to_text(&toks, 2, rng), "ill: token mutation of a valid program")
+		},
+		6 | 7 =>
+		{
+			// truncation at a random byte (may end inside a string, a comment or a multi-byte character)
+			let stmts: Vec<Stmt> = (0..1 + rng.below(3)).map(|_| gen_stmt(rng, 3)).collect();
+			let mut toks = Vec::new();
+			for s in &stmts {render_stmt(s, 2, rng, &mut toks);}
+			let mut text = to_text(&toks, 2, rng);
+			let at = rng.below(text.len() as u64 + 1) as usize;
+			text.truncate(at);
+			(text, "ill: truncation")
+		},
+		_ =>
+		{
+			// byte mutation
+			let stmts: Vec<Stmt> = (0..1 + rng.below(3)).map(|_| gen_stmt(rng, 3)).collect();
+			let mut toks = Vec::new();
+			for s in &stmts {render_stmt(s, 2, rng, &mut toks);}
+			let mut text = to_text(&toks, 2, rng);
+			const B: &[u8] = b"\"'\\/*(){}[],;:.<>#~`\x00\x01\x7f\xff\xc3\xa9\n 0aZ-+!";
+			for _ in 0..1 + rng.below(2)
+			{
+				if text.is_empty() {break;}
+				let at = rng.below(text.len() as u64) as usize;
+				match rng.below(3)
+				{
+					0 => text[at] = *rng.pick(B),
+					1 => text.insert(at, *rng.pick(B)),
+					_ => {text.remove(at);},
+				}
+			}
+			(text, "ill: byte mutation")
+		},
+	}
+}
+
+// ---------------------------------------------------------------------------------------------------
+
+pub fn run(_id: &str, cx: &mut Cx)
+{
+	cx.report.rule = "model.parse.all: the real Parser and the Lean model (fed with the REAL Tokenizer's tokens, error and final position) on \
+(1) every depth-2 tree over all 18 node kinds as parent and as either child, (2) every binary-operator tree (all shapes, all operator assignments) \
+with up to 3 operators [quick: plus a 1/14 slice of the 4-operator trees; thorough: all 140000], (3) the same with neg/not/[..] inserted above any node, \
+(4) random programs (labels, directives, instructions; trees to depth 8) with minimal parentheses and random spacing/comments, (5) the same with redundant \
+parentheses around random sub-expressions, (6) ill-formed inputs: token soup, token mutations, truncations, byte mutations. Oracle on the implementation \
+for (1)-(5): the parsed statements equal the generated ones (kind, name, argument trees in order) and each element's position is its first token's. \
+model.parse.render: the Lean rendering specification equals the harness renderer on every generated tree. \
+non-trivial = at least one element or an error after more than one token; distinct = distinct canonical outcomes (positions included)".to_owned();
+
+	if let Some(input) = cx.replay.clone()
+	{
+		replay(cx, &input);
+		return;
+	}
+	let thorough = cx.thorough();
+	let mut rng = cx.rng.fork();
+
+	// (1) depth 2, all kinds
+	let d2 = depth2_all();
+	// (2) operator trees
+	let mut ops: Vec<T> = Vec::new();
+	for n in 0..=3 {ops.extend(op_trees(n, 1, 0, false));}
+	let full3 = ops.len();
+	if thorough {ops.extend(op_trees(4, 1, 0, false));}
+	else {let off = rng.below(14) as usize; ops.extend(op_trees(4, 14, off, false));}
+	// (3) with a unary operator / address bracket above any node
+	let mut un: Vec<T> = Vec::new();
+	for n in 0..=2 {un.extend(op_trees(n, 1, 0, true));}
+	if thorough {un.extend(op_trees(3, 1, 0, true));}
+	else {let off = rng.below(16) as usize; un.extend(op_trees(3, 16, off, true));}
+	cx.report.hit_n("exhaustive: depth-2 trees over all 18 kinds", d2.len() as u64);
+	cx.report.hit_n("exhaustive: operator trees with <= 3 operators", full3 as u64);
+	cx.report.hit_n(if thorough {"exhaustive: operator trees with 4 operators"} else {"slice: operator trees with 4 operators"}, (ops.len() - full3) as u64);
+	cx.report.hit_n("operator trees with a unary/address node inserted", un.len() as u64);
+	cx.report.exhaustive = true;
+
+	let mut cases: Vec<Case> = Vec::new();
+	let mut trees: Vec<T> = Vec::new();
+	for (set, bucket) in [(&d2, "rt: depth-2 all kinds"), (&ops, "rt: operator trees"), (&un, "rt: operator trees + unary")]
+	{
+		for (i, t) in set.iter().enumerate()
+		{
+			let st = Stmt::Instruction("X".to_owned(), vec![t.clone()]);
+			let spacing = if i % 2 == 0 {1} else {2};
+			cases.push(stmts_case(&[st], 0, spacing, bucket, &mut rng));
+		}
+		trees.extend(set.iter().cloned());
+	}
+	cx.report.sample(format!("{} -> {}", String::from_utf8_lossy(&cases[d2.len() + 700].text), cases[d2.len() + 700].expect.as_ref().unwrap().0));
+	run_cases(cx, &cases);
+	check_render(cx, &trees);
+
+	// (4) random programs, minimal parentheses; (5) redundant parentheses
+	let nrand = if thorough {120_000} else {8_000};
+	let mut cases: Vec<Case> = Vec::new();
+	let mut trees: Vec<T> = Vec::new();
+	let mut all_stmts: Vec<Stmt> = Vec::new();
+	for i in 0..nrand
+	{
+		let depth = 1 + (i % 8) as u32;
+		let stmts: Vec<Stmt> = (0..match rng.below(4) {0 => 1, 1 => 2, 2 => 3, _ => 1}).map(|_| gen_stmt(&mut rng, depth)).collect();
+		for s in &stmts
+		{
+			match s
+			{
+				Stmt::Label(..) => cx.report.hit("stmt: label"),
+				Stmt::Directive(_, xs) => {cx.report.hit("stmt: directive"); for x in xs {count_kinds(cx, x); trees.push(x.clone());}},
+				Stmt::Instruction(_, xs) => {cx.report.hit("stmt: instruction"); for x in xs {count_kinds(cx, x); trees.push(x.clone());}},
+			}
+		}
+		cases.push(stmts_case(&stmts, 0, 2, "rt: random program, minimal parentheses", &mut rng));
+		cases.push(stmts_case(&stmts, 6, 2, "rt: random program, redundant parentheses", &mut rng));
+		if i % 16 == 0 {all_stmts.extend(stmts.iter().cloned());}
+		if i < 3 {cx.report.sample(format!("{:?} -> {}", String::from_utf8_lossy(&cases[cases.len() - 1].text), cases[cases.len() - 1].expect.as_ref().unwrap().0));}
+	}
+	// the empty program and pure spacing
+	cases.push(stmts_case(&[], 0, 2, "rt: empty program", &mut rng));
+	cases.push(Case{text: Vec::new(), expect: Some(("-".to_owned(), vec![])), bucket: "rt: empty program"});
+	run_cases(cx, &cases);
+	check_render(cx, &trees);
+	check_render_stmts(cx, &all_stmts);
+
+	// (6) ill-formed
+	let nill = if thorough {400_000} else {30_000};
+	let mut cases: Vec<Case> = Vec::new();
+	for _ in 0..nill
+	{
+		let (text, bucket) = gen_ill(&mut rng);
+		cases.push(Case{text, expect: None, bucket});
+	}
+	// hand-picked: each error site of the parser, end-of-input and tokenizer-error variants
+	for s in ["X", "X ", ".", ". ", ".x", ".x 1", ".1", "X 1", "X 1,", "X 1 2;", "X (", "X (1", "X (1;", "X [1", "X [1)", "X {1", "X {1]", "X f(", "X f(1",
+		"X f(1;", "X 1 +", "X 1 + ;", "X 1 \"", "X \"", "X 1 '", ". \"", "X: Y", "X:", ":", "1", "X 1 : 2;", "X 1 . 2;", "X a b;", "X -", "X !", "X - ;",
+		"X /* ", "X 1 /* ", "X (/* ", "X (1 /*", "X 1, /*", "X 1 \u{7f}", "X \u{7f}", "\u{7f}", "X 1 #", "X (#", "X f(#", "X f #", "X f \"", "X {#", "X 1,#",
+		"X;)", "X);", "X 1);", "X 1];", "X 1}", "X 1} Y;", "X ; ; Y;", "X 1 ! 2;", "X 1 ( 2;", "X 1 [ 2;", "X 1 { 2;", "X 1 \"s\";", "X \"s\" 1;"]
+	{
+		cases.push(Case{text: s.as_bytes().to_vec(), expect: None, bucket: "ill: hand-picked error sites"});
+	}
+	for s in [&b"X 1 \xff"[..], b"X \xff", b"X (\xff", b"X f\xff", b"X f \xff", b"X 1 + \xff", b"X 1, \xff", b".\xff", b". x\xff", b"X 1 //\xff", b"X 12\xff", b"\xff"]
+	{
+		cases.push(Case{text: s.to_vec(), expect: None, bucket: "ill: hand-picked error sites"});
+	}
+	cx.report.sample(format!("{:?} -> {}", String::from_utf8_lossy(&cases[0].text), real_parse(&cases[0].text).with_pos));
+	cx.report.sample(format!("{:?} -> {}", "X (1", real_parse(b"X (1").with_pos));
+	run_cases(cx, &cases);
+}
+
+fn replay(cx: &mut Cx, input: &str)
+{
+	let w: Vec<&str> = input.splitn(2, ' ').collect();
+	match w.as_slice()
+	{
+		["rt", rest] =>
+		{
+			let p: Vec<&str> = rest.splitn(3, ' ').collect();
+			if let [text, counts, expect] = p.as_slice()
+			{
+				let text = unhex(text).unwrap_or_default();
+				let counts: Vec<usize> = counts.split(',').filter(|s| !s.is_empty()).filter_map(|s| s.parse().ok()).collect();
+				run_cases(cx, &[Case{text, expect: Some(((*expect).to_owned(), counts)), bucket: "replay"}]);
+			}
+			else {cx.report.oracle_fail(input, "unrecognised replay input");}
+		},
+		["ill", text] =>
+		{
+			let text = unhex(text).unwrap_or_default();
+			run_cases(cx, &[Case{text, expect: None, bucket: "replay"}]);
+		},
+		["render", tree] =>
+		{
+			match read_tree(tree.as_bytes(), &mut 0)
+			{
+				Some(t) =>
+				{
+					check_render(cx, &[t.clone()]);
+					// and the round trip of that tree with minimal spacing
+					let mut rng = Rng::new(0);
+					let c = stmts_case(&[Stmt::Instruction("X".to_owned(), vec![t])], 0, 1, "replay", &mut rng);
+					run_cases(cx, &[c]);
+				},
+				None => cx.report.oracle_fail(input, "unrecognised replay input"),
+			}
+		},
+		["rstmt", _] =>
+		{
+			let reply = cx.model.ask(&format!("parse {input}"));
+			cx.report.notes.push(format!("model renders: {reply}"));
+		},
+		_ => cx.report.oracle_fail(input, "unrecognised replay input"),
+	}
 }
